@@ -4,8 +4,8 @@ namespace Scenic.Gen
 open Scenic.Interrupts
 /-- shape of runTryInterrupt / visit_TryInterrupt / generateInvocation / _checkAllPreconditions / _invokeInner -/
 def interruptCfg : Cfg :=
-  { condsReversed := false,
-    handlersReversed := false,
+  { condsReversed := true,
+    handlersReversed := true,
     useEnabled := true,
     useRunning := true,
     firstWins := true,
